@@ -1097,22 +1097,15 @@ func c18Render(c *Ctx) {
 		got := map[string]string{}
 		bad := []string{}
 		for _, pc := range cases {
-			var pv Val = VNil{}
-			gp := constStr("")
 			label := "<no parameter>"
 			if pc.param != nil {
-				pv, gp, label = constStr(*pc.param), constStr(*pc.param), *pc.param
+				label = *pc.param
 			}
-			req := cstruct("CodeGeneratorRequest", map[string]Val{"Parameter": pv, "GetParameter()": gp})
-			run := c.W.NewRun(map[string]int{}, false)
-			run.InlineAll, run.FollowSlices = true, true
-			run.CallHook = c.cdescHook
-			run.StartArgs(pf, map[string]Val{"req": req})
-			if len(run.Used) > 0 || run.Aborted != "" {
-				r.Undec("R18e", "format parameter "+label, pos, fmt.Sprintf("parseFormat does not evaluate: open decisions %v aborted %q", usedKeys(run), run.Aborted))
+			g, perr := c.evalParseFormat(pf, pc.param)
+			if perr != "" {
+				r.Undec("R18e", "format parameter "+label, pos, perr)
 				continue
 			}
-			g := valText(run.Result)
 			got[label] = g
 			if g != pc.want {
 				bad = append(bad, fmt.Sprintf("%q → %s (documented: %s)", label, g, pc.want))
@@ -1124,6 +1117,25 @@ func c18Render(c *Ctx) {
 	} else {
 		r.Unres("R18e", "parseFormat", "", "not found in "+cmdOpenAPI)
 	}
+}
+
+// evalParseFormat interprets the OpenAPI plugin's parseFormat on a concrete plugin parameter (nil: no parameter). The walker
+// must be in concrete mode with external structs.
+func (c *Ctx) evalParseFormat(pf *types.Func, param *string) (string, string) {
+	var pv Val = VNil{}
+	gp := constStr("")
+	if param != nil {
+		pv, gp = constStr(*param), constStr(*param)
+	}
+	req := cstruct("CodeGeneratorRequest", map[string]Val{"Parameter": pv, "GetParameter()": gp})
+	run := c.W.NewRun(map[string]int{}, false)
+	run.InlineAll, run.FollowSlices = true, true
+	run.CallHook = c.cdescHook
+	run.StartArgs(pf, map[string]Val{"req": req})
+	if len(run.Used) > 0 || run.Aborted != "" {
+		return "", fmt.Sprintf("parseFormat does not evaluate: open decisions %v aborted %q", usedKeys(run), run.Aborted)
+	}
+	return valText(run.Result), ""
 }
 
 func init() { props["C18"] = checkC18 }
